@@ -1,8 +1,10 @@
 import Hdc.Model.Discrete
+import Hdc.Lemmas.Discrete
 /-
 C17  Rolling sum and grouped mean reduce exactly the valid cells.
 -/
 namespace Hdc.C17
+open Hdc.Discrete
 
 /-- the window ending at `ii` -/
 def window (xx : List Int) (w ii : Nat) : List Int := (xx.drop (ii + 1 - w)).take w
@@ -26,27 +28,145 @@ def grpOpt (xs : List (Option Int)) (groups : List Int) (g : Int) : Int × Nat :
   let vals := ((xs.zip groups).filterMap fun (o, k) => if k = g then o else none)
   (vals.sum, vals.length)
 
--- THEOREMS TO PROVE (statements fixed; 1 ≤ w ≤ xx.length is the kernel's contract)
--- theorem rolling_length (xx : List Int) (w : Nat) (nd : Int) : (rollingSum xx w nd).length = xx.length
--- theorem rollingAcc_length (xx : List Int) (w : Nat) (nd : Int) (hw : 1 ≤ w) (hw2 : w ≤ xx.length) :
---     (rollingSumAcc xx w nd).length = xx.length - (w - 1)
--- theorem rolling_all_valid (xx : List Int) (w ii : Nat) (nd : Int) (hw : 1 ≤ w) (h1 : w ≤ ii + 1) (h2 : ii < xx.length)
---     (hv : ∀ v ∈ window xx w ii, v ≠ nd) : (rollingSum xx w nd)[ii]? = some (window xx w ii).sum
--- theorem rolling_all_nodata (xx : List Int) (w ii : Nat) (nd : Int) (hw : 1 ≤ w) (h1 : w ≤ ii + 1) (h2 : ii < xx.length)
---     (hv : ∀ v ∈ window xx w ii, v = nd) : (rollingSum xx w nd)[ii]? = some nd
--- theorem rolling_mixed (xx : List Int) (w ii : Nat) (nd : Int) (hw : 1 ≤ w) (h1 : w ≤ ii + 1) (h2 : ii < xx.length) :
---     (rollingSum xx w nd)[ii]? = some nd ∨ (rollingSum xx w nd)[ii]? = some ((window xx w ii).filter (· ≠ nd)).sum
--- theorem rolling_refines_opt (xs : List (Option Int)) (w : Nat) (nd : Int) (hc : Clean nd xs) :
---     rollingSum (enc nd xs) w nd = enc nd (rollingOpt xs w)
---   (consequence: two sentinels nd, nd' both Clean give outputs that differ only by echoing the sentinel)
--- theorem rolling_sentinel_irrelevant (xs : List (Option Int)) (w : Nat) (nd nd' : Int) (hc : Clean nd xs) (hc' : Clean nd' xs) :
---     ∃ r : List (Option Int), rollingSum (enc nd xs) w nd = enc nd r ∧ rollingSum (enc nd' xs) w nd' = enc nd' r
--- /-- the pinned tree's loop amalgamated the sentinel with data (regression witness, F6) -/
--- theorem rollingPinned_amalgam : (rollingSumPinned [1, -9999, 5, 7, 2] 2 (-9999))[2]? = some (-9994)
--- theorem meanGrp_spec (xs : List (Option Int)) (groups : List Int) (ng : Nat) (nd : Int) (hc : Clean nd xs)
---     (hl : groups.length = xs.length) (hg : ∀ k ∈ groups, 0 ≤ k ∧ k < (ng : Int)) :
---     meanGrp (enc nd xs) groups ng nd = groups.map fun k => some (grpOpt xs groups k)
--- theorem meanGrp_all_written (xx groups : List Int) (ng : Nat) (nd : Int) (hg : ∀ k ∈ groups, 0 ≤ k ∧ k < (ng : Int)) :
---     ∀ o ∈ meanGrp xx groups ng nd, o ≠ none
+-- THEOREMS (statements fixed; 1 ≤ w ≤ xx.length is the kernel's contract)
+
+theorem rolling_length (xx : List Int) (w : Nat) (nd : Int) : (rollingSum xx w nd).length = xx.length := by
+  simp [rollingSum]
+
+theorem rollingAcc_length (xx : List Int) (w : Nat) (nd : Int) (hw : 1 ≤ w) (hw2 : w ≤ xx.length) :
+    (rollingSumAcc xx w nd).length = xx.length - (w - 1) := by
+  have _ := hw; have _ := hw2
+  simp [rollingSumAcc, rolling_length]
+
+/-- the cell `ii` of the output, for a complete window -/
+theorem rolling_get (xx : List Int) (w ii : Nat) (nd : Int) (h1 : w ≤ ii + 1) (h2 : ii < xx.length) :
+    (rollingSum xx w nd)[ii]? =
+      some (if ((window xx w ii).filter (· ≠ nd)).length = 0 then nd
+            else ((window xx w ii).filter (· ≠ nd)).sum) := by
+  have h3 : ¬ (ii + 1 < w) := by omega
+  simp only [rollingSum, window, List.getElem?_map, List.getElem?_range h2, Option.map_some, h3,
+    if_false, foldl_add_eq_sum, Int.zero_add]
+  rfl
+
+/-- an incomplete window yields the sentinel -/
+theorem rolling_get_incomplete (xx : List Int) (w ii : Nat) (nd : Int) (h1 : ii + 1 < w) (h2 : ii < xx.length) :
+    (rollingSum xx w nd)[ii]? = some nd := by
+  simp [rollingSum, h2, h1]
+
+theorem window_length (xx : List Int) (w ii : Nat) (h1 : w ≤ ii + 1) (h2 : ii < xx.length) :
+    (window xx w ii).length = w := by
+  simp only [window, List.length_take, List.length_drop]; omega
+
+theorem rolling_all_valid (xx : List Int) (w ii : Nat) (nd : Int) (hw : 1 ≤ w) (h1 : w ≤ ii + 1) (h2 : ii < xx.length)
+    (hv : ∀ v ∈ window xx w ii, v ≠ nd) : (rollingSum xx w nd)[ii]? = some (window xx w ii).sum := by
+  rw [rolling_get xx w ii nd h1 h2]
+  have hf : (window xx w ii).filter (· ≠ nd) = window xx w ii := by
+    rw [List.filter_eq_self]; intro v hv'; simpa using hv v hv'
+  rw [hf, window_length xx w ii h1 h2]
+  have : ¬ (w = 0) := by omega
+  simp [this]
+
+theorem rolling_all_nodata (xx : List Int) (w ii : Nat) (nd : Int) (hw : 1 ≤ w) (h1 : w ≤ ii + 1) (h2 : ii < xx.length)
+    (hv : ∀ v ∈ window xx w ii, v = nd) : (rollingSum xx w nd)[ii]? = some nd := by
+  have _ := hw
+  rw [rolling_get xx w ii nd h1 h2]
+  have hf : (window xx w ii).filter (· ≠ nd) = [] := by
+    rw [List.filter_eq_nil_iff]; intro v hv'; simpa using hv v hv'
+  rw [hf]; rfl
+
+theorem rolling_mixed (xx : List Int) (w ii : Nat) (nd : Int) (hw : 1 ≤ w) (h1 : w ≤ ii + 1) (h2 : ii < xx.length) :
+    (rollingSum xx w nd)[ii]? = some nd ∨ (rollingSum xx w nd)[ii]? = some ((window xx w ii).filter (· ≠ nd)).sum := by
+  have _ := hw
+  rw [rolling_get xx w ii nd h1 h2]
+  split
+  · exact Or.inl rfl
+  · exact Or.inr rfl
+
+/-- sharper form of `rolling_mixed`: the sentinel is produced exactly when no cell is valid -/
+theorem rolling_mixed_iff (xx : List Int) (w ii : Nat) (nd : Int) (h1 : w ≤ ii + 1) (h2 : ii < xx.length) :
+    ((∀ v ∈ window xx w ii, v = nd) → (rollingSum xx w nd)[ii]? = some nd) ∧
+    ((∃ v ∈ window xx w ii, v ≠ nd) →
+      (rollingSum xx w nd)[ii]? = some ((window xx w ii).filter (· ≠ nd)).sum) := by
+  rw [rolling_get xx w ii nd h1 h2]
+  constructor
+  · intro hv
+    have hf : (window xx w ii).filter (· ≠ nd) = [] := by
+      rw [List.filter_eq_nil_iff]; intro v hv'; simpa using hv v hv'
+    rw [hf]; rfl
+  · rintro ⟨v, hv, hne⟩
+    have hm : v ∈ (window xx w ii).filter (· ≠ nd) := by
+      rw [List.mem_filter]; exact ⟨hv, by simpa using hne⟩
+    have : ¬ (((window xx w ii).filter (· ≠ nd)).length = 0) := by
+      intro h0
+      rw [List.length_eq_zero_iff] at h0
+      rw [h0] at hm; cases hm
+    rw [if_neg this]
+
+theorem rolling_refines_opt (xs : List (Option Int)) (w : Nat) (nd : Int) (hc : Clean nd xs) :
+    rollingSum (enc nd xs) w nd = enc nd (rollingOpt xs w) := by
+  unfold rollingSum rollingOpt enc
+  rw [List.length_map, List.map_map]
+  apply List.map_congr_left
+  intro ii _
+  simp only [Function.comp]
+  by_cases hlt : ii + 1 < w
+  · simp [hlt]
+  · simp only [hlt, if_false]
+    have hcl : ∀ v, some v ∈ (xs.drop (ii + 1 - w)).take w → v ≠ nd :=
+      fun v hv => hc v (List.mem_of_mem_drop (List.mem_of_mem_take hv))
+    have hf := filter_enc nd _ hcl
+    rw [← List.map_drop, ← List.map_take, hf, foldl_add_eq_sum, Int.zero_add]
+    split <;> rfl
+
+theorem rolling_sentinel_irrelevant (xs : List (Option Int)) (w : Nat) (nd nd' : Int) (hc : Clean nd xs) (hc' : Clean nd' xs) :
+    ∃ r : List (Option Int), rollingSum (enc nd xs) w nd = enc nd r ∧ rollingSum (enc nd' xs) w nd' = enc nd' r :=
+  ⟨rollingOpt xs w, rolling_refines_opt xs w nd hc, rolling_refines_opt xs w nd' hc'⟩
+
+/-- the pinned tree's loop amalgamated the sentinel with data (regression witness, F6) -/
+theorem rollingPinned_amalgam : (rollingSumPinned [1, -9999, 5, 7, 2] 2 (-9999))[2]? = some (-9994) := by decide
+
+/-- the repaired loop on the same input gives the sum of the valid cell -/
+theorem rolling_repaired_witness : (rollingSum [1, -9999, 5, 7, 2] 2 (-9999))[2]? = some 5 := by decide
+
+theorem grpStats_enc (xs : List (Option Int)) (groups : List Int) (nd g : Int) (hc : Clean nd xs) :
+    grpStats (enc nd xs) groups nd g = grpOpt xs groups g := by
+  unfold grpStats grpOpt enc
+  rw [foldl_sumCount0]
+  have h := filter_enc_zip nd g xs groups hc
+  have hl := congrArg List.length h
+  rw [List.length_map] at hl
+  simp only [h, hl]
+
+theorem meanGrp_spec (xs : List (Option Int)) (groups : List Int) (ng : Nat) (nd : Int) (hc : Clean nd xs)
+    (hl : groups.length = xs.length) (hg : ∀ k ∈ groups, 0 ≤ k ∧ k < (ng : Int)) :
+    meanGrp (enc nd xs) groups ng nd = groups.map fun k => some (grpOpt xs groups k) := by
+  have _ := hl
+  unfold meanGrp
+  apply List.map_congr_left
+  intro k hk
+  rw [if_pos (hg k hk), grpStats_enc xs groups nd k hc]
+
+theorem meanGrp_all_written (xx groups : List Int) (ng : Nat) (nd : Int) (hg : ∀ k ∈ groups, 0 ≤ k ∧ k < (ng : Int)) :
+    ∀ o ∈ meanGrp xx groups ng nd, o ≠ none := by
+  intro o ho
+  simp only [meanGrp, List.mem_map] at ho
+  obtain ⟨k, hk, rfl⟩ := ho
+  rw [if_pos (hg k hk)]; simp
+
+theorem meanGrp_length (xx groups : List Int) (ng : Nat) (nd : Int) :
+    (meanGrp xx groups ng nd).length = groups.length := by
+  simp [meanGrp]
+
+-- non-vacuity
+example : rollingSum [1, -9999, 5, 7, 2] 2 (-9999) = [-9999, 1, 5, 12, 9] := by decide
+example : rollingSumAcc [1, -9999, 5, 7, 2] 2 (-9999) = [1, 5, 12, 9] := by decide
+example : rollingSum [-9999, -9999, 5] 2 (-9999) = [-9999, -9999, 5] := by decide
+example : Clean (-9999) [some 1, none, some 5, some 7, some 2] := by
+  intro v hv; simp at hv; omega
+example : enc (-9999) [some 1, none, some 5, some 7, some 2] = [1, -9999, 5, 7, 2] := by decide
+example : rollingOpt [some 1, none, some 5, some 7, some 2] 2 = [none, some 1, some 5, some 12, some 9] := by decide
+example : meanGrp [10, -1, 30, 40] [0, 1, 0, 1] 2 (-1) = [some (40, 2), some (40, 1), some (40, 2), some (40, 1)] := by decide
+example : meanGrp [10, 20] [0, 5] 2 (-1) = [some (10, 1), none] := by decide
+example : grpOpt [some 10, none, some 30, some 40] [0, 1, 0, 1] 1 = (40, 1) := by decide
 
 end Hdc.C17
